@@ -104,6 +104,35 @@ def load_hybrid():
     return ns
 
 
+def load_translated():
+    """Both .pyx files through the pyxlite translator (kernels included) + common.py re-bound to them."""
+    from mcv.engine import pyxlite
+    with open(os.path.join(FILTERS_DIR, "fir.pyx")) as fh:
+        ns_f, _ = pyxlite.load(fh.read(), "fir.pyx(translated)")
+    with open(os.path.join(FILTERS_DIR, "iir.pyx")) as fh:
+        ns_i, _ = pyxlite.load(fh.read(), "iir.pyx(translated)")
+    ns_c = {}
+    ns_c.update({k: v for k, v in ns_f.items() if isinstance(v, type)})
+    ns_c.update({k: v for k, v in ns_i.items() if isinstance(v, type)})
+    with open(os.path.join(FILTERS_DIR, "common.py")) as fh:
+        src = re.sub(r"^from smpl_extract\.filters\.\w+ import \w+\s*$", "", fh.read(), flags=re.M)
+    exec(compile(src, "common.py(rebound)", "exec"), ns_c)
+    ns = {}
+    ns.update(ns_f)
+    ns.update(ns_i)
+    ns.update(ns_c)
+    for need in ("FirFilter", "IirFilter", "ChickSysCustomFirFilter", "ChickSysCustomIirFilter"):
+        if not isinstance(ns.get(need), type):
+            raise RuntimeError(f"{need} not found in the translated source")
+    # smoke test: the translated kernels must run at all, else fall back to the compiled kernels
+    f = ns["ChickSysCustomIirFilter"]((0.5, 0.1, 0.2))
+    f.process(np.asarray([1, 2, 3], dtype=np.int16))
+    g = ns["ChickSysCustomFirFilter"](np.asarray([1, 2, 1], dtype=np.int16), 1, 4)
+    g.process(np.asarray([1, 2, 3, 4], dtype=np.int16))
+    ns["IirFilter"](np.asarray([0.5, 0.1]), np.asarray([1.0, -0.5])).process(np.asarray([1.0, 2.0]))
+    return ns
+
+
 # ----------------------------------------------------------------------------- filters
 def filter_descs(quick):
     out = []
@@ -271,9 +300,10 @@ class Check(CheckBase):
             "16-bit presets compared with a saturating reference where the unsaturated value leaves the int16 range; the "
             "same after process(garbage)+reset_state(). states = schedules (splits) executed, transitions = process/flush "
             "calls. non-trivial = split containing a block shorter than the filter memory")
-    assumptions = ["Python-level classes are taken from the current .pyx/common.py text and decide the verdict; cdef / typed "
-                   "kernels come from the compiled modules (no Cython here): edits confined to those kernels in the .pyx are "
-                   "invisible until the extension is rebuilt",
+    assumptions = ["the verdict is decided on the CURRENT text of fir.pyx / iir.pyx / common.py, executed through a small "
+                   "Cython-subset translator (mcv/engine/pyxlite.py; C integer wrap/division semantics are not emulated); "
+                   "if the translator does not apply, the Python-level classes are exec'd with the compiled kernels bound in, "
+                   "and edits confined to cdef kernels are then invisible",
                    "compiled classes that disagree with the source text are reported as compiled_stale, not as violations"]
 
     def shards(self):
@@ -288,9 +318,14 @@ class Check(CheckBase):
     def _subjects(self, rep):
         subs = []
         try:
-            subs.append(("source", load_hybrid()))
-        except Exception as e:  # noqa -- extraction does not apply: skip, never fail
-            rep.notes[f"source subject skipped: {type(e).__name__}: {str(e)[:80]}"] += 1
+            subs.append(("source", load_translated()))
+            rep.notes["source subject = translated .pyx text (kernels included)"] += 1
+        except Exception as e:  # noqa -- translator does not apply: fall back to python-level classes + compiled kernels
+            rep.notes[f"translation not applicable ({type(e).__name__}: {str(e)[:60]}): python-level classes + compiled kernels"] += 1
+            try:
+                subs.append(("source", load_hybrid()))
+            except Exception as e2:  # noqa -- extraction does not apply: skip, never fail
+                rep.notes[f"source subject skipped: {type(e2).__name__}: {str(e2)[:80]}"] += 1
         try:
             comp = load_compiled()
             subs.append(("compiled", comp))
